@@ -27,7 +27,7 @@ PLAN = {
     'thorough': dict(cases=20000, budget_s=900, case_timeout=240, min_cases=3333),
 }
 KINDS = ['identity', 'scaled', 'prefix', 'ranges', 'square', 'tall', 'integer', 'sparse', 'rankdef_with_ones',
-         'rankdef_without_ones', 'total_row', 'wide_without_ones']
+         'rankdef_without_ones', 'total_row', 'wide_without_ones', 'hier']
 
 
 def setup(tier):
@@ -78,6 +78,8 @@ def make_Q(rng, kind, n):
                 return Q, True
     if kind == 'total_row':
         return np.ones((1, n)) * float(gen.pick(rng, [1.0, 2.0])), True
+    if kind == 'hier':
+        return measure.hierarchical(n), True
     if kind == 'rankdef_with_ones':
         r = max(1, n // 2)
         B = rng.normal(size=(r, n))
